@@ -169,7 +169,7 @@ package lang
 //@ spec func wfV(v Value) bool = (v.Tag == ValueStr ==> v.Str != nil && v.Proto != nil)
 //@   | && (v.Tag == ValueArray ==> v.Proto != nil)
 //@   | && (v.Tag == ValueRegex ==> v.Str != nil)
-//@   | && (v.Tag == ValueNum ==> v.Num != nil)
+//@   | && (v.Tag == ValueNum ==> v.Num != nil && v.Proto != nil)
 //@   | && (v.Tag == ValueBool ==> v.Bool != nil)
 //@   | && (v.Tag == ValueObj ==> v.Obj != nil && *v.Obj != nil)
 //@   | && (v.Tag == ValueNativeFn ==> v.NativeFn != nil)
@@ -292,6 +292,7 @@ package lang
 // Ghost snapshots used by nativePrintf's step assertions.
 //@ ghost $numStr string
 //@ ghost $pretty string
+//@ ghost $outAfterArgs string
 //@ ghost $sbFinal string
 
 //@ spec func repeatS(p string, n int) string = smt("s_repeat", string, p, n)
@@ -356,7 +357,7 @@ package lang
 //@   assert[C18] directive-s: fmtStr[i] == 's' ==> 1 <= argIndex - 1 && argIndex - 1 < len(args) && args[argIndex-1].Tag == ValueStr && arg1 == specPad(widthSpec, padChar, specStr(*args[argIndex-1])) @ (*strings.Builder).WriteString
 //@   assert[C18] directive-f: fmtStr[i] == 'f' ==> 1 <= argIndex - 1 && argIndex - 1 < len(args) && args[argIndex-1].Tag == ValueNum && arg1 == specPad(widthSpec, padChar, specStr(*args[argIndex-1])) @ (*strings.Builder).WriteString
 //@   assert[C18] directive-v: fmtStr[i] == 'v' ==> 1 <= argIndex - 1 && argIndex - 1 < len(args) && arg1 == specPad(widthSpec, padChar, $pretty) @ (*strings.Builder).WriteString
-//@   assert[C18] pad-char-of-this-directive: (arg0 == "0" || arg0 == " ") && ((arg0 == "0") <==> ($numStr[0] == '0')) && widthSpec == smt("pi_val", int, $numStr) && len($numStr) >= 1 @ strings.Repeat
+//@   assert[C18] pad-char-of-this-directive: (arg0 == "0" || arg0 == " ") && ((arg0 == "0") <==> ($numStr[0] == '0')) && widthSpec == smt("pi_val", int, $numStr, 10) && len($numStr) >= 1 @ strings.Repeat
 //@   assert[C20] width-limit: 0 - 65536 <= widthSpec && widthSpec <= 65536 && arg1 >= 0 && arg1 <= 65536 @ strings.Repeat
 //@   ensures[C18] error-writes-nothing: err != nil ==> $out == old($out)
 //@   ensures[C18] success-writes-builder: err == nil ==> result0 == nil && $out == old($out) + $sbFinal
@@ -533,7 +534,7 @@ package lang
 //@   loop 2 invariant in-match-frame: evOK(e) && e.stackTop == $frame && $frame.parent == old(e.stackTop) && !$faulted && $nmatch == 1 && !$ranBlock && e.evalDepth == old(e.evalDepth) + 1
 //@   loop 3 invariant protocol: evInv(e, old(e.stackTop)) && obj.Obj != nil && *obj.Obj != nil && e.evalDepth == old(e.evalDepth) + 1
 
-//@ func Evaluator.evalStatement [C01,C02,C07,C08,C10,C11,C20]
+//@ func Evaluator.evalStatement [C01,C02,C07,C08,C10,C11,C17,C20]
 //@   modifies valueHeap, e.stackTop, e.returnVal, e.evalDepth
 //@   ensures[C20] depth-restored: e.evalDepth == old(e.evalDepth)
 //@   requires evOK(e) && stmt != nil && !$faulted
@@ -542,6 +543,9 @@ package lang
 //@   ensures[C02,C08,C20] stack-restored: stackKept(e, old(e.stackTop), result)
 //@   ensures[C11] fault-latched: $faulted <==> isFault(result)
 //@   ensures evok: evOK(e)
+//@   after Value.PrettyString: $pretty = ret0
+//@   after Evaluator.evalExprList: $outAfterArgs = $out
+//@   ensures[C17] bare-print-writes-the-current-value-and-a-newline: istype(stmt, *StatementPrint) && len(as(stmt, *StatementPrint).Args) == 0 && result == nil ==> $out == $outAfterArgs + $pretty + "\n"
 //@   ensures[C07,C08] bare-return-clears-the-return-slot: istype(stmt, *StatementReturn) && as(stmt, *StatementReturn).Expr == nil ==> (result == errReturn && e.returnVal == nil) || isRT(result)
 //@   ensures[C07,C08] return-signals: istype(stmt, *StatementReturn) && result == nil ==> false
 //@   init $lastOut = nil
@@ -772,7 +776,8 @@ package lang
 //@   modifies nothing
 //@   loop 0 invariant index: 0 <= i && fresh(buf) && !$faulted
 
-//@ func Evaluator.createSpeculativeObjects [C01,C09,C11]
+//@ func Evaluator.createSpeculativeObjects [C01,C09,C11,C20]
+//@   allocbound[C20] no-allocation-sized-by-an-index: 16
 //@   modifies valueHeap
 //@   requires e != nil && specObj != nil && specObj.Value.ParentObj != nil && !$faulted
 //@   updates $faulted
@@ -822,6 +827,7 @@ package lang
 //@ spec func effIndex(n int, m Value) int = int(*m.Num) < 0 ? n + int(*m.Num) : int(*m.Num)
 
 //@ func Value.SetMember [C01,C09,C11,C20]
+//@   allocbound[C20] no-allocation-sized-by-an-index: 16
 //@   requires v != nil && cell != nil && !$faulted
 //@   updates $faulted
 //@   ensures[C01] result-or-error: err == nil ==> result0 != nil
@@ -1444,7 +1450,7 @@ package lang
 //@   ensures[C04] bool: v.Tag == ValueBool && err == nil ==> istype(result0, bool) && as(result0, bool) == *v.Bool
 //@   ensures[C04] number: v.Tag == ValueNum && err == nil ==> istype(result0, float64) && same(as(result0, float64), *v.Num)
 //@   ensures[C04] null: (v.Tag == ValueNil || v.Tag == ValueUnknown) && !(checkCircularReference && (exists k int :: 0 <= k && k < len(rootValues) && sameContainer(rootValues[k], v))) ==> err == nil && result0 == nil
-//@   ensures[C04] array-is-a-non-nil-list-of-the-same-length: v.Tag == ValueArray && err == nil ==> istype(result0, "[]any") && as(result0, "[]any") != nil && len(as(result0, "[]any")) == len(v.Array)
+//@   ensures[C04,C16] array-is-a-non-nil-list-of-the-same-length: v.Tag == ValueArray && err == nil ==> istype(result0, "[]any") && as(result0, "[]any") != nil && len(as(result0, "[]any")) == len(v.Array)
 //@   ensures[C04] object-is-a-map: v.Tag == ValueObj && err == nil ==> istype(result0, "map[string]any") && as(result0, "map[string]any") != nil && fresh(as(result0, "map[string]any"))
 //@   ensures[C04] inexpressible-is-an-error: (v.Tag == ValueFn || v.Tag == ValueNativeFn || v.Tag == ValueRegex) ==> err != nil
 //@   exit[C04] cycle-error-only-at-a-recurrence: checkCircularReference && rangeindex#0 < len(rootValues) ==> sameContainer(rootValues[rangeindex#0], v)
